@@ -3,3 +3,4 @@ pub mod glob;
 pub mod refs;
 pub mod json;
 pub mod http;
+pub mod net;
